@@ -13,6 +13,10 @@ verus! {
 //@include units/clones.inc
 verus! {
 //@include units/spec_lookups.inc
+//@include units/spec_lines.inc
+//@include units/spec_destruct.inc
+//@include units/spec_enum.inc
+//@include units/spec_enum_block.inc
 
 // =====================================================================================================
 // U4 — trait skeletons, body wrappers, quote_action, render_parent
@@ -271,8 +275,7 @@ spec fn spec_render_parent(m: Toks, k: Kind, fallible: bool) -> Toks {
 //@end
 
 // ---------------------------------------------------------------- body wrappers (C07 C08 C17)
-// ASSUMED (unreached callee): the struct / enum init block
-uninterp spec fn spec_enum_init<'a>(input: Enum<'a>, ctx: ImplContext<'a>) -> Toks;
+// ASSUMED (unreached callee): the struct init block (the enum block is proved in U9)
 
 //@stub expand.rs struct_init_block ::= fn struct_init_block<'a>(input: &'a Struct, ctx: &ImplContext) -> TokenStream
 #[verifier::external_body]
@@ -280,11 +283,7 @@ fn struct_init_block<'a>(input: &'a Struct, ctx: &ImplContext) -> (r: TokenStrea
     ensures r@ == spec_struct_init(sview(*input), cview(*ctx)),
 { unimplemented!() }
 
-//@stub expand.rs enum_init_block ::= fn enum_init_block(input: &Enum, ctx: &ImplContext) -> TokenStream
-#[verifier::external_body]
-fn enum_init_block(input: &Enum, ctx: &ImplContext) -> (r: TokenStream)
-    ensures r@ == spec_enum_init(*input, *ctx),
-{ unimplemented!() }
+//@assume U9 expand.rs enum_init_block
 
 spec fn spec_struct_main<'a>(input: Struct<'a>, ctx: ImplContext<'a>) -> Toks {
     let init = spec_struct_init(sview(input), cview(ctx));
@@ -298,7 +297,7 @@ spec fn spec_struct_main<'a>(input: Struct<'a>, ctx: ImplContext<'a>) -> Toks {
     }
 }
 
-spec fn spec_enum_main<'a>(input: Enum<'a>, ctx: ImplContext<'a>) -> Toks {
+spec fn spec_enum_main<'a>(input: &'a Enum<'a>, ctx: ImplContext<'a>) -> Toks {
     let init = spec_enum_init(input, ctx);
     if k_is_from(ctx.kind) {
         id("match") + id("value") + init
@@ -319,16 +318,29 @@ spec fn spec_enum_main<'a>(input: Enum<'a>, ctx: ImplContext<'a>) -> Toks {
 //@fn expand.rs enum_main_code_block
 //@props C02,C17
 //@spec
+    requires
+        enum_items_pre(refs(enum_fields(input, *ctx)), *ctx), // #every-rendered-variant-has-a-defined-arm [C16]
     ensures
-        r@ =~= spec_enum_main(*input, *ctx), // #enum-body-shape
+        r@ =~= spec_enum_main(input, *ctx), // #enum-body-shape
 //@end
 
 spec fn spec_data_body<'a>(ctx: ImplContext<'a>) -> Toks {
     match *ctx.input {
         DataType::Struct(s) => spec_struct_main(*s, ctx),
-        DataType::Enum(e) => spec_enum_main(*e, ctx),
+        DataType::Enum(e) => spec_enum_main(e, ctx),
     }
 }
+
+// what the body builders need from validation (C16 ledger): for an enum without quick return, every rendered variant has a
+// defined arm shape and carries what that shape needs.  (Independent of the post-init dialect: stated on the context with
+// has_post_init = false.)
+spec fn body_pre0<'a>(ctx: ImplContext<'a>) -> bool {
+    ctx.struct_attr.quick_return is None ==> (match *ctx.input {
+        DataType::Enum(e) => enum_items_pre(refs(enum_fields(e, ctx)), ctx),
+        DataType::Struct(_) => true,
+    })
+}
+spec fn body_pre<'a>(ctx: ImplContext<'a>) -> bool { body_pre0(ImplContext { has_post_init: false, ..ctx }) }
 
 // `return expr` replaces the whole generated body; for into_existing it is assigned to the existing value (C08)
 spec fn spec_quick_return<'a>(qr: Toks, ctx: ImplContext<'a>) -> Toks {
@@ -358,6 +370,8 @@ spec fn spec_main_ok<'a>(ctx: ImplContext<'a>) -> Toks {
 //@fn expand.rs main_code_block
 //@props C07,C08
 //@spec
+    requires
+        body_pre(*ctx), // #body-preconditions [C16]
     ensures
         r@ =~= spec_main(*ctx), // #body-or-quick-return
 //@end
@@ -365,6 +379,8 @@ spec fn spec_main_ok<'a>(ctx: ImplContext<'a>) -> Toks {
 //@fn expand.rs main_code_block_ok
 //@props C07,C08
 //@spec
+    requires
+        body_pre(*ctx), // #body-preconditions [C16]
     ensures
         r@ =~= spec_main_ok(*ctx), // #ok-wrapping
 //@end
@@ -412,6 +428,7 @@ spec fn spec_impl<'a>(input: DataType<'a>, ctx0: ImplContext<'a>) -> Toks {
 //@spec
     requires
         old(ctx).fallible ==> old(ctx).struct_attr.err_ty is Some, // #fallible-has-err_ty [C16]
+        body_pre(*old(ctx)), // #body-preconditions [C16]
     ensures
         r@ =~= spec_impl(*input, *old(ctx)), // #kind-to-trait
         *final(ctx) == with_post_init(*old(ctx), the_post_init(*input, *old(ctx)) is Some), // #ctx-frame
@@ -461,7 +478,7 @@ spec fn all_ctxs<'a>(input: &'a DataType<'a>, ty: &'a TokenStream) -> Seq<ImplCo
     + ctxs_for(input, Kind::RefIntoExisting, false, ty) + ctxs_for(input, Kind::RefIntoExisting, true, ty)
 }
 spec fn impl_of<'a>(input: &'a DataType<'a>) -> spec_fn(ImplContext<'a>) -> Toks { |c: ImplContext<'a>| spec_impl(*input, c) }
-spec fn ctx_ok<'a>(c: ImplContext<'a>) -> bool { c.fallible ==> c.struct_attr.err_ty is Some }
+spec fn ctx_ok<'a>(c: ImplContext<'a>) -> bool { (c.fallible ==> c.struct_attr.err_ty is Some) && body_pre(c) }
 
 //@fn expand.rs data_type_impl
 //@props C04,C16
@@ -470,6 +487,10 @@ spec fn ctx_ok<'a>(c: ImplContext<'a>) -> bool { c.fallible ==> c.struct_attr.er
 //@spec
     requires
         forall|j: int| 0 <= j < dt_attrs(input).attrs@.len() ==> ((#[trigger] dt_attrs(input).attrs@[j]).fallible ==> dt_attrs(input).attrs@[j].core.err_ty is Some), // #fallible-instructions-declare-an-error-type [C16]
+        // for every impl that can be requested: the body builders' preconditions hold
+        forall|j: int| #![trigger dt_attrs(input).attrs@[j]] 0 <= j < dt_attrs(input).attrs@.len() ==> (forall|k: Kind, f: bool, ty: TokenStream|
+            appl(dt_attrs(input).attrs@[j].applicable_to, k) && f == dt_attrs(input).attrs@[j].fallible
+            ==> body_pre(#[trigger] mk_ctx(&input, &dt_attrs(input).attrs@[j].core, k, f, &ty))), // #body-preconditions-for-every-requested-impl [C16]
     ensures
         forall|ty: TokenStream| ty@ == dt_ident(input).toks() ==> r@ == flat(#[trigger] all_ctxs(&input, &ty).map_values(impl_of(&input))), // #one-impl-per-requested-kind-fallibility-instruction
 //@closure 0
